@@ -32,6 +32,7 @@ type sessRec struct {
 	idx        int // creation order since the last reset
 	closeCount int
 	closeErr   string
+	closedAt   time.Time
 }
 
 type connRec struct {
@@ -144,6 +145,7 @@ func (h hBase) OnSessionClose(ctx *gortsplib.ServerHandlerOnSessionCloseCtx) {
 	h.c.mu.Lock()
 	if r, ok := h.c.bySess[ctx.Session]; ok {
 		r.closeCount++
+		r.closedAt = time.Now()
 		if ctx.Error != nil {
 			r.closeErr = ctx.Error.Error()
 		}
